@@ -116,6 +116,8 @@ class Ctx:
         self.extra = {}          # extra coverage keys
         self.model_ok = True     # driver built
         self.broken_obligations = []  # names of theorems / correspondences that no longer check
+        self._later = []         # (label, thunk, expected, detail) re-evaluated after everything else (see `later`)
+        self._later_seen = 0
 
     # ---- budgets -------------------------------------------------------
     def time_left(self):
@@ -144,6 +146,46 @@ class Ctx:
 
     def stat(self, name, k=1):
         self.stats[name] = self.stats.get(name, 0) + k
+
+    # ---- history independence -----------------------------------------
+    def later(self, label, thunk, expected, detail=None, cap=150):
+        """
+        Register a call on the REAL code to be repeated once everything else the check does in this
+        process has happened (reservoir-sampled, at most `cap` per check). Every property here states
+        that a result is a function of the inputs of that call: if the repeated call - same input
+        OBJECTS, same arguments - no longer gives `expected` (a canonical, comparable value the first
+        call produced and the model/oracle agreed with), some call in between left state behind (a cache
+        that is not reset, a mutated input tree, module-level registries) and one of the two answers
+        contradicts the property. Keep the input objects alive in the thunk's closure and share them
+        between calls of the check: that is what makes stale state visible.
+        """
+        self._later_seen += 1
+        item = (label, thunk, expected, detail)
+        if len(self._later) < cap:
+            self._later.append(item)
+        else:
+            j = self.rng.randrange(self._later_seen)
+            if j < cap:
+                self._later[j] = item
+
+    def run_later(self, grace=20.0):
+        t_end = max(self.deadline, time.time()) + grace
+        done = 0
+        for label, thunk, expected, detail in self._later:
+            if time.time() > t_end:
+                break
+            try:
+                got = thunk()
+            except Exception as e:  # the first call returned: raising now is a different answer
+                got = "raised %s: %s" % (type(e).__name__, str(e)[:200])
+            done += 1
+            if got != expected:
+                self.fail("history-dependent:" + label,
+                          "the same call on the same input objects gave another result after the other calls of this run",
+                          {"label": label, "first": expected, "repeated": got, "input": detail}, kind="property")
+        if self._later:
+            self.extra["repeated_calls"] = done
+        self._later = []
 
     # ---- findings ------------------------------------------------------
     def fail(self, signature, what, detail, kind="property"):
@@ -403,6 +445,11 @@ def run_check(prop, tier, seed, replay=None):
 
     if replay:
         data = json.loads(Path(replay).read_text())
+        if str(data.get("signature", "")).startswith("history-dependent:"):
+            # the failing "input" is a history: the whole (deterministic) run of that seed and tier replays it
+            rc = run_check(prop, data.get("tier", "quick"), int(data.get("seed", 0)))
+            print("REPLAY %s: %s" % (prop, "property holds on this history" if rc == 0 else "property FAILS on this history"))
+            return rc
         fn = getattr(mod, "replay", None)
         if fn is None:
             print("no replay function for", prop)
@@ -447,6 +494,7 @@ def run_check(prop, tier, seed, replay=None):
     infra_error = None
     try:
         mod.run(ctx)
+        ctx.run_later()
     except subprocess.TimeoutExpired as e:
         infra_error = "timeout: %s" % e
     except Exception as e:
